@@ -234,10 +234,12 @@ impl Report {
             wall,
             cov_short.join(" ")
         );
-        if !self.machinery_errors.is_empty() {
-            2
-        } else if self.violation_count > 0 {
+        // a violation comes with a replayable case and stands on its own; machinery errors alone
+        // (crashed engine, nondeterministic replay) are no verdict
+        if self.violation_count > 0 {
             1
+        } else if !self.machinery_errors.is_empty() {
+            2
         } else {
             0
         }
